@@ -17,7 +17,7 @@ if kind == "func":
                 targets[fn].add(e["property_id"])
 elif kind == "field":
     src = open(f"{V}/checker/internal/eng/pinned_gen.go").read()
-    fields = re.findall(r'^\t"(dht[^"]*)": "[^"]*",$', src[src.index("pinnedFields"):], re.M)
+    fields = re.findall(r'^\t"(dht[^"]*)":\s+"', src[src.index("pinnedFields"):], re.M)
     rules_src = "".join(open(p).read() for p in glob.glob(f"{V}/checker/internal/rules/c*.go"))
     for q in fields:
         base = q.rsplit(".", 1)[-1]
